@@ -102,7 +102,7 @@ class World(object):
             return type("PtL", (object,), {"__init__": __init__, ser: _s})
 
         def mk_serdict():
-            def __init__(self, x=None, y=None):
+            def __init__(self, x, y):            # (required constructor arguments: only the serialisation method supplies them)
                 self.x, self.y = x, y
 
             def _s(self):
